@@ -134,7 +134,11 @@ def rank_fn(spec):
                 if 'factors' in spec.get('record', ()):
                     sd = p.state_dict()['layers']
                     rec['factors'].append({n: (sd[n]['A'].clone(), sd[n]['G'].clone()) for n in sd})
-                if 'held' in spec.get('record', ()):
+                if 'held' in spec.get('record', ()) and spec.get('held_steps') is not None and step_no not in spec['held_steps']:
+                    # no query at this boundary: communication started in this step may stay in flight into the next iteration
+                    rec['held'].append(None)
+                    rec['mem'].append(None)
+                elif 'held' in spec.get('record', ()):
                     # ask for the reports FIRST (communication results may still be in flight at this point: the report must
                     # account for them), only then walk the tensors (the walk itself waits on the futures)
                     total = dict(p.memory_usage())
